@@ -119,7 +119,7 @@ def sh(cmd, **kw):
 
 def main():
     want = set(sys.argv[1:])
-    out_path = "/verif/notes/kill_results.json"
+    out_path = os.environ.get("KILL_RESULTS_PATH", "/verif/notes/kill_results.json")
     results = {}
     if os.path.exists(out_path):
         results = json.load(open(out_path))
